@@ -770,6 +770,7 @@ func (e *Engine) instrEffects(sc *FnCtx, fn *ssa.Function, in ssa.Instruction, e
 		eff.ghost["sent"] = true
 		et := x.Chan.Type().Underlying().(*types.Chan).Elem()
 		eff.ghost["lastsent."+sortTag(sc.sortOf(et))] = true
+		eff.sorts["lastsent."+sortTag(sc.sortOf(et))] = "(Array Int " + sc.sortOf(et) + ")"
 	case *ssa.Select:
 		eff.ghost["sent"] = true
 		eff.ghost["received"] = true
@@ -777,6 +778,7 @@ func (e *Engine) instrEffects(sc *FnCtx, fn *ssa.Function, in ssa.Instruction, e
 			if s.Dir == types.SendOnly {
 				et := s.Chan.Type().Underlying().(*types.Chan).Elem()
 				eff.ghost["lastsent."+sortTag(sc.sortOf(et))] = true
+				eff.sorts["lastsent."+sortTag(sc.sortOf(et))] = "(Array Int " + sc.sortOf(et) + ")"
 			}
 		}
 	case *ssa.UnOp:
